@@ -6,6 +6,7 @@ package sched
 
 import (
 	"fmt"
+	"time"
 )
 
 // PointInfo describes one scheduling decision of a run.
@@ -164,12 +165,23 @@ func Explore(mk func() []func(s *S), bound int, maxExec int, visit func(r *Run))
 // executions with fewer than two deviations from the default schedule are run by every shard
 // (they are needed to enumerate their children) but visited by shard 0 only; every subtree
 // rooted at an execution with exactly two deviations is owned by one shard, round-robin.
+// Deadline, when set, ends ExploreShard early (truncated = true): one schedule tree may be far larger than the
+// wall-clock budget of a whole check.
+var Deadline time.Time
+
 func ExploreShard(mk func() []func(s *S), bound int, maxExec int, shard, nshards int, visit func(r *Run)) (execs int, truncated bool) {
 	unit := 0
 	var rec func(prefix []int, depth int, owned bool)
 	rec = func(prefix []int, depth int, owned bool) {
 		if maxExec > 0 && execs >= maxExec {
 			truncated = true
+			return
+		}
+		if truncated {
+			return
+		}
+		if !Deadline.IsZero() && time.Now().After(Deadline) {
+			truncated = true // the caller reports the exploration as capped, never as exhaustive
 			return
 		}
 		r := Execute(mk(), prefix)
